@@ -88,10 +88,10 @@ func main() {
 		{Name: "gov-tally-bkava", Cfg: cfg, Script: history.ScenarioGovTallyBkava(cfg.GovVotingPeriod), Blocks: 15, MaxTxs: 5, PriceEvery: 5},
 		{Name: "committee-param-change", Cfg: cfg, Script: history.ScenarioCommitteeParamChange(), Blocks: 15, MaxTxs: 5, PriceEvery: 5},
 	}
-	nRandom := c.Budget(14, 60)
+	nRandom := c.Budget(14, 40)
 	blocks := 150
 	if c.Tier() == "thorough" {
-		blocks = 500
+		blocks = 400
 	}
 	for i := 0; i < nRandom; i++ {
 		cf := cfg
